@@ -3,6 +3,7 @@ package variable
 import (
 	"bytes"
 	"io"
+	"net"
 	"strings"
 
 	"net/http"
@@ -146,7 +147,10 @@ func (v *FetchScopeVariables) Get(s context.Scope, name string) (value.Value, er
 		return &value.String{Value: ""}, nil
 	// FIXME should be able to get from actual backend request
 	case BERESP_BACKEND_IP:
-		return &value.String{Value: ""}, nil
+		if v := lookupOverrideAsIP(v.ctx, name); v != nil {
+			return v, nil
+		}
+		return &value.IP{Value: net.IPv4(127, 0, 0, 1)}, nil
 	case BERESP_BACKEND_HOST:
 		return getBackendHost(v.ctx.Backend)
 	case BERESP_BACKEND_NAME:
